@@ -179,7 +179,7 @@ func mapCalls() []mapCall {
 		{"MapEvery", false, func(m map[string]int) any { return gogu.MapEvery(m, pos) }, false},
 		{"MapSome", false, func(m map[string]int) any { return gogu.MapSome(m, pos) }, false},
 		{"MapContains", false, func(m map[string]int) any { return gogu.MapContains(m, 1) }, false},
-		{"MapUnique", false, func(m map[string]int) any { return len(gogu.MapUnique(m)) }, false},
+		{"MapUnique", false, func(m map[string]int) any { return gogu.MapUnique(m) }, false},
 		{"MapCollection", false, func(m map[string]int) any {
 			v := gogu.MapCollection(m, func(v int) int { return v })
 			sort.Ints(v)
@@ -188,7 +188,7 @@ func mapCalls() []mapCall {
 		{"Find", false, func(m map[string]int) any { return gogu.Find(m, pos) }, false},
 		{"FindKey", false, func(m map[string]int) any { return gogu.FindKey(m, func(int) bool { return false }) }, false},
 		{"FindByKey", false, func(m map[string]int) any { return gogu.FindByKey(m, func(k string) bool { return k == "a" }) }, false},
-		{"Invert", false, func(m map[string]int) any { return len(gogu.Invert(m)) }, false},
+		{"Invert", false, func(m map[string]int) any { return gogu.Invert(m) }, false},
 		{"Pick", false, func(m map[string]int) any { r, _ := gogu.Pick(m, "a", "b"); return r }, false},
 		{"PickBy", false, func(m map[string]int) any { return gogu.PickBy(m, func(k string, v int) bool { return v > 0 }) }, false},
 		{"Omit", true, func(m map[string]int) any { return gogu.Omit(m, "a") }, false},
@@ -323,6 +323,21 @@ func c16(r *R) {
 			r.Eval(a.name)
 			if !a.inPlace && !meq(in, m) {
 				r.Bad(a.name+"/modifies-its-argument", fmt.Sprintf("%s(%s)", a.name, mstr(m)), "argument became %s", mstr(in))
+			}
+			// the other direction: what the caller does to the RESULT (an in-place helper, a plain
+			// assignment) must not reach the argument -- the result of a non-in-place helper is a map of its own
+			if !a.inPlace && !a.refs {
+				in2 := mcopy(m)
+				var res any
+				if p, _ := enum.Try(func() { res = a.f(in2) }); !p {
+					if rm, ok := res.(map[string]int); ok && rm != nil {
+						gogu.Omit(rm, "a", "b", "c")
+						rm["zz"] = 99
+						if !meq(in2, m) {
+							r.Bad(a.name+"/result-aliases-argument", fmt.Sprintf("r := %s(%s); Omit(r, ...); r[zz]=99", a.name, mstr(m)), "the argument became %s", mstr(in2))
+						}
+					}
+				}
 			}
 			for _, b := range mcs {
 				in := mcopy(m)
